@@ -267,6 +267,23 @@ func checkC05(sim *core.Sim, prop string, pp PeerPlan, pr *peerRun) {
 	if !pr.res.closed {
 		sim.Violate(prop, "outcome", "conn-not-closed", "Exchange returned without closing the connection")
 	}
+	// the forwarder list announces the station's own call and every auxiliary
+	// address, in the order they were configured (hashes are C16's business)
+	if fw := strings.TrimSpace(strings.TrimPrefix(pr.peer.FWLine, ";FW:")); pr.peer.FWLine != "" {
+		var got []string
+		for _, f := range strings.Fields(fw) {
+			got = append(got, strings.SplitN(f, "|", 2)[0])
+		}
+		want := []string{strings.ToUpper(pp.Lib.Call)}
+		for _, a := range pp.Aux {
+			want = append(want, wireAddr(a))
+		}
+		if strings.Join(got, " ") != strings.Join(want, " ") {
+			sim.Violate(prop, "emit", "forwarder-list-incomplete", ";FW line %q announces %v, configured: %v", pr.peer.FWLine, got, want)
+		} else if len(pp.Aux) >= 2 {
+			sim.Probe("forwarder-list-with-two-or-more-auxiliary-addresses")
+		}
+	}
 	// library outbound: callbacks per the peer's answers
 	proposed := map[string]bool{}
 	for _, blk := range pr.peer.Proposed {
@@ -433,7 +450,7 @@ func genC05(tier string, r *core.Rand) PeerPlan {
 		if cls == '+' && !allowH {
 			forms = []string{"+", "Y", "y", "!0", "A0", "a0"}
 		}
-		if cls == '+' && !pp.Lib.Gzip && r.Chance(0.1) {
+		if cls == '+' && !pp.Lib.Gzip && (r.Chance(0.1) || m.RawSubject && r.Chance(0.5)) {
 			// resume request: accept from a non-zero offset
 			p.Answers[m.MID] = core.Choice(r, []string{"!", "A", "a"}) + "p" + strconv.Itoa(r.Range(0, 99))
 			continue
